@@ -150,7 +150,7 @@ def check_c15(tier, seed):
                 v.report("C15 error-on-wellformed-input msg=%s" % common.clip(rec["errs"][0], 60), {"input": b["input"], "errs": rec["errs"]}, replay)
             elif rec["diags"]:
                 v.report("C15 diagnostic-from-disabled-text msg=%s" % common.clip(rec["diags"][0], 60), {"input": b["input"], "diags": rec["diags"]}, replay)
-    if n_wn < 100 or n_unterm < 10 or n_nameless < 10:
+    if not v.violations and (n_wn < 100 or n_unterm < 10 or n_nameless < 10):
         raise ToolError("vacuous: %d well-nested, %d unterminated, %d nameless" % (n_wn, n_unterm, n_nameless))
     cov = {"states": mc.distinct + en.distinct + dp.distinct, "transitions": mc.generated + en.generated + dp.generated, "traces_validated_against_impl": len(items),
            "samples": [meta[5][0], meta[len(meta) // 2][0], meta[-1][0]], "exhaustive": True,
